@@ -1,0 +1,22 @@
+//go:build verif
+
+package workercmd
+
+// Verification hook (build tag "verif" only): expose the worker's HTTP handler so a
+// harness can put it in front of a scripted token without starting a subprocess.
+
+import (
+	"net/http"
+	"time"
+
+	"github.com/sassoftware/relic/v8/token"
+	"github.com/sassoftware/relic/v8/token/tokencache"
+)
+
+func NewHandlerForVerif(tok token.Token, cookie string, expiry time.Duration, shutdown func()) http.Handler {
+	return &handler{
+		token:    tokencache.New(tok, expiry),
+		cookie:   []byte(cookie),
+		shutdown: shutdown,
+	}
+}
